@@ -19,7 +19,7 @@ import (
 func init() {
 	register(&Check{
 		ID: "C19", Level: "model_checking", QuickSecs: 170, ThoroughSecs: 1500,
-		Rule:        "Nondeterminism explorer over Go map iteration order: pigeon is built with an overlay in which every range statement over a map in packages ast and builder (type-directed rewrite, 24 sites) iterates in a harness-chosen order. Default = sorted at every dynamic site; a deviation = any other order at one dynamic site (all n! permutations for maps of <= 4 keys, the n rotations and the reversal above). Grammars: every pair of rules with bodies alt1 / alt2 over {A, B, A 'a', B 'a', A B 'z', B A 'z', \"\", 'a'} and a slice of the triples over 5 alternatives (thorough: all) that have at least one first-call cycle, with -support-left-recursion and with -support-left-recursion -optimize-grammar, plus an optimizer family (leaf rules referenced from several places) with -optimize-grammar. Every execution with <= 1 deviation is run (<= 2 deviations for grammars with <= 10 dynamic sites): the outcome (error text | per-rule nullable/leftRecursive/leader flags and optimised AST; emitted bytes once per distinct analysis outcome, after checking that no map site fires during emission) must be identical for every order. History independence: every ordered pair and triple over 6 (grammar, flags) requests sent to one fresh server process must give, for each request, the answer the same request gets alone in a fresh process. Binding: the uninstrumented pigeon binary is run repeatedly; its output must equal the sorted-order outcome, and an order dependence found by the explorer is re-observed on it.",
+		Rule:        "Nondeterminism explorer over Go map iteration order: pigeon is built with an overlay in which every range statement over a map in packages ast and builder (type-directed rewrite, 24 sites) iterates in a harness-chosen order. Default = sorted at every dynamic site; a deviation = any other order at one dynamic site (all n! permutations for maps of <= 4 keys, the n rotations and the reversal above). Grammars: every pair of rules with bodies alt1 / alt2 over {A, B, A 'a', B 'a', A B 'z', B A 'z', \"\", 'a'} and a slice of the triples over 5 alternatives (thorough: all) that have at least one first-call cycle, with -support-left-recursion and with -support-left-recursion -optimize-grammar, plus an late-nullable choice family (R <- X / P D: X nullable only through the fixpoint, P a nullable prefix with a cached flag - rule reference, choice, sequence, action - and D closing a cycle through R only behind P; 144 grammars); optimizer family (leaf rules referenced from several places) with -optimize-grammar. Every execution with <= 1 deviation is run (<= 2 deviations for grammars with <= 10 dynamic sites): the outcome (error text | per-rule nullable/leftRecursive/leader flags and optimised AST; emitted bytes once per distinct analysis outcome, after checking that no map site fires during emission) must be identical for every order. History independence: every ordered pair and triple over 6 (grammar, flags) requests sent to one fresh server process must give, for each request, the answer the same request gets alone in a fresh process. Binding: the uninstrumented pigeon binary is run repeatedly; its output must equal the sorted-order outcome, and an order dependence found by the explorer is re-observed on it.",
 		Assumptions: []string{"every permutation of a map's keys is a legal iteration order of the real implementation", "the rewrite keeps Go's semantics (entries deleted during the loop are skipped; entries added are not visited, which Go permits)"},
 		Run:         runC19,
 	})
@@ -284,6 +284,57 @@ func runC19(c *ShardCtx) {
 			}
 		}
 	}
+	// late-nullable choice family: R <- X / P D where X becomes nullable only through the
+	// fixpoint, P is a nullable prefix with a cached flag and D closes a cycle through R only
+	// behind P (4 rules, or 3 with an inline prefix); both alternative orders
+	{
+		opt := func(e *peg.Expr) *peg.Expr { return peg.Opt(e) }
+		xs := []func() []*peg.Rule{
+			func() []*peg.Rule { return []*peg.Rule{{Name: "X", Expr: peg.Choice(peg.Seq(peg.Ref("R"), lit("x")), lit(""))}} },
+			func() []*peg.Rule { return []*peg.Rule{{Name: "X", Expr: peg.Choice(peg.Seq(peg.Ref("R"), lit("x")), opt(lit("y")))}} },
+			func() []*peg.Rule { return []*peg.Rule{{Name: "X", Expr: peg.Choice(lit(""), peg.Seq(peg.Ref("R"), lit("x")))}} },
+			func() []*peg.Rule {
+				return []*peg.Rule{{Name: "X", Expr: peg.Ref("Z")}, {Name: "Z", Expr: peg.Choice(peg.Seq(peg.Ref("R"), lit("x")), lit(""))}}
+			},
+		}
+		type prefix struct {
+			e     func() *peg.Expr
+			rules func() []*peg.Rule
+		}
+		ps := []prefix{
+			{func() *peg.Expr { return peg.Ref("Y") }, func() []*peg.Rule { return []*peg.Rule{{Name: "Y", Expr: opt(lit("y"))}} }},
+			{func() *peg.Expr { return peg.Ref("Y") }, func() []*peg.Rule { return []*peg.Rule{{Name: "Y", Expr: lit("")}} }},
+			{func() *peg.Expr { return peg.Ref("Y") }, func() []*peg.Rule { return []*peg.Rule{{Name: "Y", Expr: peg.Star(lit("y"))}} }},
+			{func() *peg.Expr { return peg.Choice(lit(""), lit("a")) }, func() []*peg.Rule { return nil }},
+			{func() *peg.Expr { return peg.Seq(lit(""), lit("")) }, func() []*peg.Rule { return nil }},
+			{func() *peg.Expr { return peg.Action(0, lit("")) }, func() []*peg.Rule { return nil }},
+		}
+		ds := []func() *peg.Expr{
+			func() *peg.Expr { return peg.Seq(peg.Ref("R"), lit("d")) }, func() *peg.Expr { return peg.Ref("R") },
+			func() *peg.Expr { return peg.Seq(opt(lit("d")), peg.Ref("R")) },
+		}
+		for _, xr := range xs {
+			for _, pr := range ps {
+				for _, d := range ds {
+					for order := 0; order < 2; order++ {
+						if c.Expired("late-nullable choice family") {
+							return
+						}
+						alts := []*peg.Expr{peg.Ref("X"), peg.Seq(pr.e(), peg.Ref("D"))}
+						if order == 1 {
+							alts[0], alts[1] = alts[1], alts[0]
+						}
+						g := &peg.Grammar{Rules: []*peg.Rule{{Name: "R", Expr: peg.Choice(alts...)}}}
+						g.Rules = append(g.Rules, xr()...)
+						g.Rules = append(g.Rules, pr.rules()...)
+						g.Rules = append(g.Rules, &peg.Rule{Name: "D", Expr: d()})
+						peg.Renumber(g, 1)
+						one(g, lrSets[:1])
+					}
+				}
+			}
+		}
+	}
 	// optimizer family
 	optSet := []hook.Req{{OptGrammar: true}, {OptGrammar: true, AltEntry: []string{"B"}}}
 	leafs := []*peg.Expr{lit("a"), peg.Choice(lit("a"), lit("b")), peg.Seq(lit("a"), lit("b")), peg.Cls(false, false, "a", "b")}
@@ -386,3 +437,4 @@ func historyIndependence(c *ShardCtx) {
 	c.Res.Counters["history_sequences"] = int64(len(seqs))
 	_ = os.Getenv
 }
+
